@@ -204,7 +204,7 @@ func vfC19run(c *vfC19Case, gsfa bool, st map[string]int, outTx map[int][]string
 				total++
 				keep := true
 				if !q.NoFilter {
-					if vote != nil && !*vote && t.Vote {
+					if vote != nil && !*vote && t.SimpleVote {
 						keep = false
 					}
 					if failed != nil && !*failed && t.Failed {
@@ -234,6 +234,9 @@ func vfC19run(c *vfC19Case, gsfa bool, st map[string]int, outTx map[int][]string
 				}
 				if keep {
 					want = append(want, vfC19Tx{t, b.Slot})
+				}
+				if !q.NoFilter && vote != nil && !*vote && t.Spec != nil && t.Spec.VoteAt > 0 {
+					st["vote-false-over-multi-instruction-vote-program-tx"]++
 				}
 			}
 		}
@@ -469,7 +472,7 @@ func TestVfC19(t *testing.T) {
 	run := vfh.Begin("C19", "streams")
 	defer run.End(t)
 	vfArmWatch(run, "C19")
-	run.Require("tx-range-with-skipped-slot", "tx-filter-accepts-and-rejects", "blocks-range-with-skipped-slot", "range-across-epochs", "nontrivial", "include-account-absent-from-newer-epoch")
+	run.Require("tx-range-with-skipped-slot", "tx-filter-accepts-and-rejects", "blocks-range-with-skipped-slot", "range-across-epochs", "nontrivial", "include-account-absent-from-newer-epoch", "vote-false-over-multi-instruction-vote-program-tx")
 	for _, p := range vfh.ReplayFiles("C19", "streams") {
 		var c vfC19Case
 		if err := vfh.LoadCaseFile(p, &c); err != nil {
